@@ -39,7 +39,8 @@ def build(run) -> str | None:
         return run._native_bin
     crate = os.path.join(run.scratch, "native-crate")
     subprocess.run(["rsync", "-a", "--exclude", "target", "--exclude", ".git", run.repo.root + "/", crate + "/"], check=True)
-    for src, rel in EXPORTS:
+    from .kani import APPEND as KANI_APPEND
+    for src, rel in EXPORTS + KANI_APPEND:   # the Kani harnesses are compiled natively too (replay of Kani counterexamples)
         with open(os.path.join(crate, rel), "a") as f:
             f.write(open(os.path.join(VERIF, src)).read())
     with open(os.path.join(crate, "src/query.rs"), "a") as f:
